@@ -674,3 +674,103 @@ def expand_vars(body, term, depth=2):
         out += nxt
         frontier = nxt
     return out
+
+
+def k2_correlated(body, effect_block, err_blocks, key_fn, set_fn=None, fail_cut=()):
+    """Which err_blocks are reachable *after* effect_block on a feasible path, where feasibility tracks a few
+    named predicates: key_fn(term, meaning) -> (key, value) | None for a switch edge; value is a variant name /
+    bool or ('not', (..)).  set_fn(bi) -> {key: value} for blocks that assign a tracked fact (e.g. a state send).
+    Returns {err_block: path}."""
+    from collections import deque
+    errs = set(err_blocks)
+    fail_cut = set(fail_cut)
+    start = (0, (), False)
+    q = deque([start])
+    parent = {start: None}
+    hits = {}
+    while q:
+        st = q.popleft()
+        bi, env, passed = st
+        if passed and bi in errs and bi not in hits:
+            path = []
+            x = st
+            while x is not None:
+                path.append(x[0])
+                x = parent[x]
+            hits[bi] = list(reversed(path))
+        envd = dict(env)
+        if set_fn is not None:
+            upd = set_fn(bi)
+            if upd:
+                envd.update(upd)
+        npassed = passed or bi == effect_block
+        blk = body.blocks[bi]
+        if blk["t"]["k"] == "switch":
+            term, outs = body.switch_info(bi)
+            for tgt, _lab, meaning in outs:
+                if (bi, tgt) in fail_cut:
+                    continue
+                nd = dict(envd)
+                kv = key_fn(term, meaning)
+                if kv is not None:
+                    k, v = kv
+                    if k in nd and not _compatible(nd[k], v):
+                        continue
+                    if not (isinstance(v, tuple) and v and v[0] == "not") or k not in nd:
+                        nd[k] = v
+                ns = (tgt, tuple(sorted(nd.items(), key=lambda kv: str(kv[0]))), npassed)
+                if ns not in parent:
+                    parent[ns] = st
+                    q.append(ns)
+        else:
+            for tgt, _ in body.succ_edges(bi):
+                if (bi, tgt) in fail_cut:
+                    continue
+                ns = (tgt, tuple(sorted(envd.items(), key=lambda kv: str(kv[0]))), npassed)
+                if ns not in parent:
+                    parent[ns] = st
+                    q.append(ns)
+    return hits
+
+
+def can_fail(facts, fn, depth=4, _seen=None):
+    """Can the (local) function `fn` return Err?  True unless every return is provably not an error:
+    no Err aggregate, and every propagated residual / tail call comes from callees that cannot fail
+    (depth-bounded; unknown or external callees can fail)."""
+    _seen = _seen or set()
+    if fn in _seen:
+        return False
+    _seen = _seen | {fn}
+    name = fn
+    if facts.has_body(fn + "::{closure#0}") and facts.body(fn).rec.get("async"):
+        name = fn + "::{closure#0}"
+    if not facts.has_body(name):
+        return True
+    if depth <= 0:
+        return True
+    body = facts.body(name)
+    for bi, si, s in body.assigns():
+        if s["p"]["l"] == 0 and "p" not in s["p"]:
+            rv = s["rv"]
+            if rv["r"] == "agg" and rv.get("ak") == "adt" and rv["adt"].endswith("result::Result") and rv["variant"] == "Err":
+                return True
+    for bi, t, path in body.calls():
+        if t["dst"]["l"] == 0 and "p" not in t["dst"]:
+            if path and "FromResidual" in path:
+                src = residual_source(body, t)
+                if src is None or can_fail(facts, src, depth - 1, _seen):
+                    return True
+            elif path and not path.startswith("std::result::Result::<T, E>::map"):
+                # tail call returning its callee's Result
+                if body.locals[0]["ty"].startswith("std::result::Result") and can_fail(facts, path, depth - 1, _seen):
+                    return True
+    return False
+
+
+def residual_source(body, t):
+    """for a from_residual call: the def path of the (first local/non-std) call whose result is propagated"""
+    inner = body.term_operand(t["a"][0])
+    for x in mir.walk(inner):
+        if x[0] == "call" and not x[1].startswith("std::") and not x[1].startswith("core::") and not x[1].split("::")[-1].startswith("{closure"):
+            return x[1]
+    return None
